@@ -5,6 +5,9 @@ CHECK = {
     "units": [
         unit("unwrap", "vault", ["vault/c18_test.go"], "^TestVerif_C18_",
              quick={"checks": 200, "shards": 1, "cap": 900},
-             thorough={"checks": 1500, "shards": 16, "cap": 3000}),
+             thorough={"checks": 1500, "shards": 16, "cap": 3000},
+             # lock hand-over between two blocked request goroutines is decided by the Go runtime, so a failing schedule
+             # need not fail again when rapid re-runs it; the verdict is a fact about the history that did happen
+             flaky_is_violation=True),
     ],
 }
